@@ -1,4 +1,6 @@
 import HL.Model.Ast
+import HL.Model.Utf8
+import HL.Model.Classes
 /-!
   Executable oracle for the lexer sentence of C06, written against the property text and
   independent of the model: "Tokenisation always makes progress: tokens cover the input left to
@@ -34,9 +36,29 @@ def pieces (input : Bytes) : Nat → List Token → Bytes
 /-- a byte that may lie between two tokens: blank or tab -/
 def isGapByte (c : UInt8) : Bool := c == 0x20 || c == 0x09
 
-/-- Cover: what no token covers is blanks and tabs (the bytes `skipSpaces` steps over). -/
-def covered (input : Bytes) (toks : List Token) : Bool :=
-  (gaps input 0 toks).all isGapByte
+/-- every rune of `s`, decoded from left to right, is white space (`unicode.IsSpace`) -/
+def wsOnlyF : Nat → Bytes → Bool
+  | 0, s => s.isEmpty
+  | _, [] => true
+  | n+1, b :: t =>
+    let (r, w) := HL.Utf8.decodeRune (b :: t)
+    isSpaceRune r && wsOnlyF n ((b :: t).drop w)
+def wsOnly (s : Bytes) : Bool := wsOnlyF s.length s
+
+/-- What may lie between the End of a token of type `prev` (`none`: the start of the input) and
+    the Pos of the next one: blanks and tabs, the bytes `skipSpaces` steps over.  Behind a Text
+    token, whose value is trimmed with `strings.TrimSpace` and which ends with its value: white
+    space. -/
+def gapOk (prev : Option TokType) (gap : Bytes) : Bool :=
+  if prev == some .text then wsOnly gap else gap.all isGapByte
+
+def gapsOk (input : Bytes) : Option TokType → Nat → List Token → Bool
+  | ty, prev, [] => gapOk ty (input.drop prev)
+  | ty, prev, t :: rest =>
+    gapOk ty ((input.drop prev).take (t.pos.off - prev)) && gapsOk input (some t.ty) t.stop.off rest
+
+/-- Cover: what no token covers is blanks and tabs — behind a Text token, white space. -/
+def covered (input : Bytes) (toks : List Token) : Bool := gapsOk input none 0 toks
 
 /-- Offsets of the LF bytes of `rest`, which starts at offset `i`. -/
 def lfOffsetsFrom : Nat → Bytes → List Nat
@@ -72,7 +94,7 @@ def judge (input : Bytes) (toks : List Token) : Verdict :=
   else if !(toks.all fun t => t.ty != .newline || newlineShape input t) then
     ⟨false, "a Newline token does not span exactly one line end (LF or CR LF) / one line"⟩
   else if !linesOk input toks then ⟨false, "token line number differs from 1 + number of LF bytes before it"⟩
-  else if !covered input toks then ⟨false, "bytes other than blanks and tabs are not covered by any token"⟩
+  else if !covered input toks then ⟨false, "bytes other than blanks and tabs (behind a text token: white space) are not covered by any token"⟩
   else ⟨true, ""⟩
 
 end HL.Spec.LexSpec
